@@ -54,6 +54,10 @@ def blank_sources():
         # leading lines that hold only blanks, before the first token or comment
         out.append((f"leadsp{k}", "\n" * (k % 3) + "  \n" * (1 + k % 2) + "fn a() {}\n"))
         out.append((f"leadtab{k}", "\t\n" + "\n" * (k % 3) + "// c\nfn a() {}\n"))
+        # sources without any item: only a comment, only inner attributes
+        out.append((f"leadcomment{k}", "\n" * (1 + k % 3) + "// only a comment\n"))
+        out.append((f"leadblockc{k}", "\n" * (1 + k % 2) + "/* only a comment */\n"))
+        out.append((f"leadinner{k}", "\n" * (1 + k % 3) + "#![allow(unused)]\n// c\n"))
         out.append((f"leadindent{k}", "\n" * (k % 3) + "   fn a() {}\n"))
     return out
 
